@@ -4,8 +4,10 @@ package main
 
 import (
 	"fmt"
+	"github.com/whawty/auth/zzverif/simsignal"
 	"io"
 	"strings"
+	"syscall"
 	"testing/synctest"
 
 	zxcvbn "github.com/nbutton23/zxcvbn-go"
@@ -159,6 +161,16 @@ func propC17(r *Run) {
 			op := "update"
 			if !exists {
 				op = "add"
+			}
+			if r.Choose("reload-between-writes", 8) == 0 {
+				// the operator reloads the (unchanged) store configuration: the policy comes from the
+				// command line and stays in force
+				simsignal.Raise(syscall.SIGHUP, -1)
+				if wedge := w.settle(nil); wedge != "" {
+					r.FailOther("C10", wedgeSignature(wedge), "%s", wedge)
+					return
+				}
+				r.Count("fault:sighup-reload")
 			}
 			path := []string{"cli", "api-admin", "api-self", "api-oldpw", "agent"}[r.Choose("path", 5)]
 			before := w.fs.Snapshot(cfg.BaseDir)
